@@ -3,12 +3,15 @@
 import json, os
 V = os.path.dirname(os.path.dirname(os.path.abspath(__file__)))
 NOTE = ("Trusted base: Lean 4.33.0 kernel (axioms propext, Classical.choice, Quot.sound; audited by #print axioms every run; "
-        "no sorry/admit/native_decide/own axioms); the hand-written Lean model of the Rust as far as the correspondence streams "
-        "reach; the specification (Lex/Ref/Spec) as a reading of CPython pickletools; tools/translate.py; the harness; rustc.")
+        "no sorry/admit/native_decide/own axioms); the hand-written Lean model of the Rust (simulated VM, exact generator, mutators, "
+        "exact ports of both entropy sources: arbitrary::Unstructured and ChaCha8Rng+rand samplers) as far as the correspondence "
+        "streams reach (S1 exhaustive small states, S2 every step of real runs, S3/S4/S5 byte-exact in both entropy modes); the "
+        "hypotheses FloatOK/FloatAscii/ModsOK about data outside the model, evaluated on the real data every run; the specification "
+        "(Lex/Ref/Spec) as a reading of CPython pickletools (cross-checked by tools/specval.py); tools/translate.py; the harness; rustc.")
 CLAIMS = {
- "C01": ("proof", "Theorem C01.accepted over the Lean model: every instruction list the (abstract, all-choices) generator can emit in safe mode is accepted by the reference stack machine, for all protocols/choices/ranges; tied to the code by S1 (exhaustive probe of can_emit/process_stack_ops/cleanup_for_stop on small states), S2 (every step of traced real runs replayed through the model) and the oracle (the same executable Spec evaluated on real outputs, both entropy modes).", "§6 C01", "Lean theorem + S1/S2 correspondence + oracle"),
- "C02": ("proof", "Theorem C02.memo_ok: no memo violation (undefined GET, re-defined PUT, PUT on MARK/empty) in any safe-mode run of the model, memo keys dense; S1 at memo sizes 0,1,2,255,256,257; S2 incl. 3000-4000-opcode traces; oracle.", "§6 C02", "Lean theorem + S1/S2 correspondence + oracle"),
- "C03": ("proof", "Theorem C03.typed_ok: no operand-kind violation in any safe-mode run of the model (corollary of the simulation theorem C17); S1, S2, oracle with the typed family of the reference machine.", "§6 C03", "Lean theorem + S1/S2 correspondence + oracle"),
+ "C01": ("proof", "Theorem C01.accepted over the Lean model: every instruction list the (abstract, all-choices) generator can emit in safe mode is accepted by the reference stack machine, for all protocols/choices/ranges; tied to the code by S1 (exhaustive probe of can_emit/process_stack_ops/cleanup_for_stop on small states), S2 (every step of traced real runs replayed through the model) and the oracle (the same executable Spec evaluated on real outputs, both entropy modes); C01.bytes_stack_ok carries it to the bytes of the exact generator model (for every lawful entropy source, both real sources proved lawful), which S3 compares byte for byte with generate()/generate_from_arbitrary().", "§6 C01, §14", "Lean theorems + S1/S2/S3 correspondence + oracle"),
+ "C02": ("proof", "Theorem C02.memo_ok: no memo violation (undefined GET, re-defined PUT, PUT on MARK/empty) in any safe-mode run of the model, memo keys dense; S1 at memo sizes 0,1,2,255,256,257; S2 incl. 3000-4000-opcode traces; C02.bytes_memo_ok on the bytes of the exact generator model (S3, both entropy modes); oracle.", "§6 C02, §14", "Lean theorems + S1/S2/S3 correspondence + oracle"),
+ "C03": ("proof", "Theorem C03.typed_ok: no operand-kind violation in any safe-mode run of the model (corollary of the simulation theorem C17); C03.bytes_typed_ok on the bytes of the exact generator model (S3, both entropy modes); S1, S2, oracle with the typed family of the reference machine.", "§6 C03, §14", "Lean theorems + S1/S2/S3 correspondence + oracle"),
  "C04": ("proof", "C04.generated_bytes_well_formed: for every protocol <= 5, every configuration (all mutators, any rate, unsafe mutations and type confusion included), every lawful entropy source, the bytes the exact generator model returns satisfy Spec.wellFormed (complete decode under the pickletools table, arguments in their prescribed encoding and domain, single final STOP); built on the lexer/encoder round trip C04.lex_encode; hypotheses FloatOK/ModsOK checked on the real data on every run; tied by S3 (model = generate_from_arbitrary byte for byte), S2 and the oracle (the same Spec.wellFormed on real outputs of all mutator subsets incl. unsafe, both entropy modes).", "§6 C04, §14", "Lean end-to-end theorem + S3 exact correspondence + oracle on real outputs"),
  "C05": ("proof", "Table theorems (generated tables vs. pickletools' protocol column, re-proved whenever /repo's tables change), C05.ops_in_proto / header_ok for every run, C05.protocol0_seven_bit (every byte of a protocol-0 output of the exact generator is below 0x80, any safe mutators) and EndToEnd.bytes_ok (the decoded bytes use only opcodes of the protocol with the right header); tied by S1/S2/S3; oracle: opcode histogram, header, 7-bit check on real outputs, protocols in ascending and descending order inside one process.", "§6 C05, §14", "Lean theorems over translated tables and the exact generator + S1/S2/S3 + oracle"),
  "C06": ("proof", "C06.* theorems on the header/back-patch model; oracle re-derives the FRAME length from the final bytes for every configuration incl. unsafe.", "§6 C06", "Lean theorem + oracle"),
